@@ -510,6 +510,32 @@ def keyword_word_boundary_rule(ctx, res, rule: str) -> None:
                 if isinstance(b, ast.BoolOp) and any(v is x for v in b.values):
                     ok = any(isinstance(c, ast.Call) and call_name(c) in ("_is_id_char", "isalnum", "isidentifier", "_find_word_start")
                              for v in b.values if v is not x for c in ast.walk(v))
+            if not ok:
+                # the same decision written as nested ifs (or with the slice test first): every statement that runs only
+                # when the slice compared equal is reached only through a test that looks at the character in front
+                from ..cfg import CFG
+                cfg = CFG(f.node)
+                eq = isinstance(x.ops[0], ast.Eq)
+                BOUNDARY = ("_is_id_char", "isalnum", "isidentifier", "_find_word_start")
+
+                def conjuncts(e):
+                    return [y for v in e.values for y in conjuncts(v)] if isinstance(e, ast.BoolOp) and isinstance(e.op, ast.And) else [e]
+
+                tset = set()
+                for st in walk_local(f.node):
+                    if isinstance(st, (ast.If, ast.While)):
+                        for cj in conjuncts(st.test):
+                            if any(y is x for y in ast.walk(cj)):
+                                continue
+                            if any(isinstance(c, ast.Call) and call_name(c) in BOUNDARY for c in ast.walk(cj)):
+                                inside = {id(y) for y in ast.walk(cj)}
+                                tset |= {nd.id for nd in cfg.nodes if nd.kind == "test" and id(nd.ast) in inside}
+                xn = next((nd for nd in cfg.nodes if nd.kind == "test" and nd.ast is x), None)
+                if xn is not None and tset:
+                    starts = [b for b, lab in cfg.succ[xn.id] if lab == ("true" if eq else "false")]
+                    under = [nd for nd in cfg.nodes if nd.kind == "stmt" and nd.ast is not None
+                             and any(t is x and pol == eq for t, pol in cfg.guards(nd.id))]
+                    ok = bool(under) and bool(starts) and all(cfg.must_pass_through(starts[0], nd.id, lambda m: m.id in tset) for nd in under)
             res.add(rule, f"{f.qualname.split('.', 2)[-1]}|keyword-slice:{kw.value}", ok, f"{f.unit.rel}:{x.lineno}",
                     f"the text slice compared with '{kw.value}' is tested for a word boundary in front of it" if ok else
                     f"{f.name} takes the characters `{ast.unparse(sl)}` for the keyword '{kw.value}' without testing the character before them: a name "
@@ -576,3 +602,133 @@ def pair_component(fn_node, expr, producers) -> Optional[int]:
         if len(found) == 1 and -1 not in found:
             return found.pop()
     return None
+
+
+def inline_single_assignments(fn_node: ast.AST) -> List[ast.stmt]:
+    """A copy of the function's body in which every local that is assigned exactly once, by a plain top-level
+    `name = <expr>` of the body (not inside a loop / branch), and never re-bound, is replaced by its defining expression and
+    the assignment dropped.  Used by shape-comparing rules so that `a = f(x); if a and ...` and `if f(x) and ...` look
+    the same.  Purely syntactic: evaluation order of the substituted expressions is not preserved, so use it only for
+    rules that compare WHAT is tested, not WHEN."""
+    import copy
+
+    body = copy.deepcopy([st for st in fn_node.body])
+    counts: Dict[str, int] = {}
+    for x in ast.walk(ast.Module(body=body, type_ignores=[])):
+        if isinstance(x, ast.Name) and isinstance(x.ctx, (ast.Store, ast.Del)):
+            counts[x.id] = counts.get(x.id, 0) + 1
+    a = getattr(fn_node, "args", None)
+    params = {p.arg for p in (a.posonlyargs + a.args + a.kwonlyargs)} if a is not None else set()
+    env: Dict[str, ast.expr] = {}
+
+    class Sub(ast.NodeTransformer):
+        def visit_Name(self, n):
+            if isinstance(n.ctx, ast.Load) and n.id in env:
+                return copy.deepcopy(env[n.id])
+            return n
+
+    out: List[ast.stmt] = []
+    for st in body:
+        st = Sub().visit(st)
+        if isinstance(st, ast.Assign) and len(st.targets) == 1 and isinstance(st.targets[0], ast.Name) \
+                and counts.get(st.targets[0].id) == 1 and st.targets[0].id not in params:
+            env[st.targets[0].id] = st.value
+            continue
+        out.append(st)
+    return out
+
+
+def with_private_helpers(idx: Index, f: FuncInfo, depth: int = 2) -> List[FuncInfo]:
+    """f and the private helpers it delegates to: methods of the same class reached by `self._name(...)` and functions of
+    the same module reached by `_name(...)`, transitively up to `depth`.  Rules that ask "does this function do X
+    somewhere" use it so that extracting part of the function into a helper does not change the answer."""
+    out, seen, frontier = [f], {f.qualname}, [f]
+    for _ in range(depth):
+        nxt = []
+        for g in frontier:
+            for c in calls_in(g.node):
+                h = None
+                if is_self_attr(c.func) and g.cls is not None:
+                    h = idx.find_method(g.cls.qualname, c.func.attr)
+                elif isinstance(c.func, ast.Name):
+                    q = idx.resolve(g.unit.modname, c.func)
+                    h = idx.functions.get(q) if q else None
+                    if h is not None and h.unit is not g.unit:
+                        h = None
+                if h is not None and h.qualname not in seen and h.name.startswith("_") and not h.name.startswith("__"):
+                    seen.add(h.qualname)
+                    out.append(h)
+                    nxt.append(h)
+        frontier = nxt
+    return out
+
+
+def inline_private_calls(idx: Index, f: FuncInfo, depth: int = 2, keep=()) -> ast.AST:
+    """A copy of f's FunctionDef in which every STATEMENT of the form `self._helper(args)` / `_helper(args)` (an expression
+    statement; the helper is a private method of the same class or private function of the same module, takes plain
+    positional/keyword parameters, and contains no `return <value>` / `yield`) is replaced by the helper's body with the
+    parameters substituted by the argument expressions (helpers named in `keep` stay calls).  Path rules build their CFG on this copy, so that moving the
+    tail of a function into a helper does not change what they see.  Anything else is left as it is."""
+    import copy
+
+    def helper_of(g_cls, modname, call):
+        if is_self_attr(call.func) and g_cls is not None:
+            return idx.find_method(g_cls.qualname, call.func.attr), True
+        if isinstance(call.func, ast.Name):
+            q = idx.resolve(modname, call.func)
+            h = idx.functions.get(q) if q else None
+            return (h if h is not None and h.unit.modname == modname else None), False
+        return None, False
+
+    def expand(stmts, level):
+        out = []
+        for st in stmts:
+            for fld in ("body", "orelse", "finalbody"):
+                v = getattr(st, fld, None)
+                if isinstance(v, list) and v and isinstance(v[0], ast.stmt):
+                    setattr(st, fld, expand(v, level))
+            for hnd in getattr(st, "handlers", []) or []:
+                hnd.body = expand(hnd.body, level)
+            if level < depth and isinstance(st, ast.Expr) and isinstance(st.value, ast.Call):
+                h, is_method = helper_of(f.cls, f.unit.modname, st.value)
+                if h is not None and h.qualname != f.qualname and h.name.startswith("_") and not h.name.startswith("__") and h.name not in keep:
+                    a = h.node.args
+                    simple = not (a.vararg or a.kwarg or a.posonlyargs)
+                    has_value_return = any((isinstance(x, ast.Return) and x.value is not None) or isinstance(x, (ast.Yield, ast.YieldFrom))
+                                           for x in walk_local(h.node))
+                    early_return = any(isinstance(x, ast.Return) for x in walk_local(h.node) if x is not h.node.body[-1])
+                    if simple and not has_value_return and not early_return:
+                        params = [p.arg for p in a.args][1 if is_method else 0:]
+                        env = {}
+                        ok = len(st.value.args) <= len(params)
+                        for pnm, arg in zip(params, st.value.args):
+                            env[pnm] = arg
+                        for k in st.value.keywords:
+                            if k.arg in params:
+                                env[k.arg] = k.value
+                            else:
+                                ok = False
+                        defaults = dict(zip(params[len(params) - len(a.defaults):], a.defaults))
+                        for pnm in params:
+                            if pnm not in env:
+                                if pnm in defaults:
+                                    env[pnm] = defaults[pnm]
+                                else:
+                                    ok = False
+                        if ok:
+                            class Sub(ast.NodeTransformer):
+                                def visit_Name(self, n):
+                                    if n.id in env and isinstance(n.ctx, ast.Load):
+                                        return copy.deepcopy(env[n.id])
+                                    return n
+                            body = [Sub().visit(copy.deepcopy(b)) for b in h.node.body
+                                    if not (isinstance(b, ast.Expr) and isinstance(b.value, ast.Constant)) and not isinstance(b, ast.Return)]
+                            out.extend(expand(body, level + 1) or [ast.Pass()])
+                            continue
+            out.append(st)
+        return out
+
+    node = copy.deepcopy(f.node)
+    node.body = expand(node.body, 0)
+    ast.fix_missing_locations(node)
+    return node
